@@ -66,6 +66,14 @@ func (p *Parser) Parse(source string) (Node, error) {
 	// Use zero allocation tokenizer for optimal performance
 	tokenizer := GetTokenizer(p.source, 0)
 
+	// p.tokens aliases the tokenizer's pooled token buffer, so the tokenizer must stay
+	// checked out until parsing is finished; releasing it earlier lets a concurrent
+	// Parse overwrite the tokens this parser is still reading.
+	defer func() {
+		p.tokens = nil
+		ReleaseTokenizer(tokenizer)
+	}()
+
 	// Every template is tokenized the same way whatever its length.
 	// TokenizeOptimized, which used to be selected for sources over 4096 bytes, reads
 	// verbatim blocks, tag-like text inside string literals and include/with arguments
@@ -77,9 +85,6 @@ func (p *Parser) Parse(source string) (Node, error) {
 		tokenizer.ApplyWhitespaceControl()
 	}
 
-	// Return the tokenizer to the pool
-	ReleaseTokenizer(tokenizer)
-
 	if err != nil {
 		return nil, fmt.Errorf("tokenization error: %w", err)
 	}
@@ -88,15 +93,12 @@ func (p *Parser) Parse(source string) (Node, error) {
 	// Whitespace control has already been applied by the tokenizer
 
 	// Parse tokens into nodes
+	// The token slice belongs to the tokenizer (released above by the deferred call);
+	// it must not also be handed to the token slice pool, or two owners share one array.
 	nodes, err := p.parseOuterTemplate()
 	if err != nil {
-		// Clean up token slice on error
-		ReleaseTokenSlice(p.tokens)
 		return nil, fmt.Errorf("parsing error: %w", err)
 	}
-
-	// Clean up token slice after successful parsing
-	ReleaseTokenSlice(p.tokens)
 
 	return NewRootNode(nodes, 1), nil
 }
